@@ -118,9 +118,10 @@ func runParent(r *ev.Run) {
 		}
 	}
 	// ---- (2c) a producing node: own blocks through the real miner while clients submit through the real Chain ----
-	for bi := 0; bi < r.N(1, 6); bi++ {
-		c := spawn("producer", "x", r.N(30, 120), r.Seed*3000+int64(bi), 20*time.Minute)
-		if !judgeChild(r, c, "producer") {
+	for bi := 0; bi < r.N(2, 12); bi++ {
+		mode := []string{"producer", "receiver"}[bi%2]
+		c := spawn("producer", mode, r.N(30, 120), r.Seed*3000+int64(bi), 20*time.Minute)
+		if !judgeChild(r, c, mode) {
 			continue
 		}
 		var pr producerResult
@@ -133,7 +134,18 @@ func runParent(r *ev.Run) {
 				r.Violation("deadlock|producer-round-did-not-finish", "a round of a producing node under load did not finish within 90 s", rep)
 				continue
 			}
-			r.Case("producer|"+rep.Ops+fmt.Sprintf("|%d/%d", rep.Acknowledged, rep.Refused), rep.Blocks > 0 && rep.Acknowledged > 0)
+			r.Case(mode+"|"+rep.Ops+fmt.Sprintf("|%d/%d", rep.Acknowledged, rep.Refused), rep.Blocks > 0 && rep.Acknowledged > 0)
+			if mode == "receiver" {
+				r.Count("receiver.rounds", 1)
+				r.Count("receiver.peer-blocks", rep.Blocks)
+				r.Count("receiver.submissions.acknowledged", rep.Acknowledged)
+				r.Count("receiver.submissions.refused", rep.Refused)
+				for _, p := range rep.Problems {
+					parts := strings.SplitN(p, " ## ", 2)
+					r.Violation(parts[0], parts[1]+"\nops: "+rep.Ops, rep)
+				}
+				continue
+			}
 			r.Count("producer.rounds", 1)
 			r.Count("producer.own-blocks", rep.Blocks)
 			r.Count("producer.submissions.acknowledged", rep.Acknowledged)
@@ -157,6 +169,8 @@ func runParent(r *ev.Run) {
 	r.Floor("bursts.spend", 200)
 	r.Floor("bursts.key", 200)
 	r.Floor("bursts.select", 200)
+	r.Floor("receiver.rounds", 20)
+	r.Floor("receiver.peer-blocks", 40)
 	r.Floor("producer.rounds", 20)
 	r.Floor("producer.own-blocks", 40)
 	r.Floor("producer.submissions.acknowledged", 200)
